@@ -35,6 +35,8 @@ pub enum Target {
     Stream(SinkPlan),
     File(String),
     Sink,
+    /// the process's real stdout (only used by the C20 child process)
+    Stdout,
 }
 
 /// execute the history on solver `sid`
@@ -97,6 +99,7 @@ pub fn exec_history_to(
             solver.print_to_file(f);
         }
         Target::Sink => solver.print_to_sink(),
+        Target::Stdout => solver.print_to_stdout(),
     }
     let mut snaps = vec![];
     let mut usable = true;
